@@ -601,8 +601,7 @@ pub fn c07(args: &Args) {
         "E1-actor",
         "request histories of 1..9 requests over 3 ids (one in four: 10..39 requests over 16 ids) (same alphabet as C02 incl. service payloads, 2 keyspaces, hour-scale stamps in half) against a real KeyspaceGroup; crash point = after any request, or INSIDE the last one (the wrapper performs the inner write - for bulk calls of the first j documents - and never returns; group, actors and server are dropped). Restart = fresh KeyspaceGroup + load_states_from_storage on the same storage (MemStore shared Arc; SQLite file closed and reopened, 1 in 8). Oracle: for every keyspace storage lists, the rebuilt set's listing == iter_metadata (ids, stamps, live/tombstone); every mutation that was visible in storage right after its acknowledgement is present after the restart or superseded by a newer stamp for that id. Non-trivial = crashed inside a request or >= 2 visible mutations; distinct = distinct histories.",
     );
-    let dir = std::path::PathBuf::from("/verif/harness/target/tmp").join(format!("c07-{}", std::process::id()));
-    let _ = std::fs::create_dir_all(&dir);
+    let dir = scratch_dir("c07");
     if let Some(path) = &args.replay {
         let r = read_replay(path);
         let (seed, i) = (r["seed"].as_u64().unwrap(), r["index"].as_u64().unwrap());
@@ -1043,8 +1042,7 @@ pub fn c19(args: &Args) {
     // not unwind) or simply crashes it; the parent turns that into a violation naming
     // the case the child was working on.
     let exe = std::env::current_exe().expect("own path");
-    let dir = std::path::PathBuf::from("/verif/harness/target/tmp").join(format!("c19-{}", std::process::id()));
-    let _ = std::fs::create_dir_all(&dir);
+    let dir = scratch_dir("c19");
     let workers = args.threads.max(1) as u64;
     let per = (n + workers - 1) / workers;
     let tier = if args.tier == Tier::Quick { "quick" } else { "thorough" };
